@@ -489,6 +489,13 @@ int main(int argc, char **argv) {
         if (a3[0]) mprotect(p, pages * 4096, prot_of(a3));
         reply("ok %p", (void *)p);
       }
+    } else if (!strcmp(cmd, "hole_at")) {
+      // hole_at <addr> <len>: replace whatever is mapped there by an inaccessible anonymous private mapping
+      uintptr_t addr = strtoull(a1, NULL, 0);
+      size_t len = strtoull(a2, NULL, 0);
+      void *r = mmap((void *)addr, len, PROT_NONE, MAP_PRIVATE | MAP_ANONYMOUS | MAP_FIXED, -1, 0);
+      if (r == MAP_FAILED) reply("err mmap %d", errno);
+      else reply("ok %p", r);
     } else if (!strcmp(cmd, "mprotect")) {
       uintptr_t addr = strtoull(a1, NULL, 0);
       size_t len = strtoull(a2, NULL, 0);
